@@ -5,7 +5,7 @@
     such iteration. "Never strands a separator": a step is separator-then-item as one unit
     ([right_of]); when it fails the returned lexer is the one the last accepted step returned.
     Fuel: the theorems are about results that are not RFuel; that enough fuel exists is C02. *)
-From Tephra Require Import CLexer Run RunLoops.
+From Tephra Require Import MetricsSpec CLexer LexerFacts Run Peg RunCore RunLoops RunLoopsPeg.
 
 (** intersperse (and repeat = intersperse with the empty separator, intersperse_default = with a
     separator token) *)
@@ -77,6 +77,25 @@ Theorem C07_count_variants :
      = cnt (run (S f) (GIntersperseUntil lo hi stopg a s) lx c st).
 Proof. intros. subst cnt. repeat split; cbn [run]; apply count_of_spec. Qed.
 Print Assumptions C07_count_variants.
+
+(** in terms of TOKENS, for item and separator parsers of the C06 core fragment: the repetition is
+    the greedy PEG repetition  a (s a)*  on the deliverable tokens - the items are the successive
+    PEG matches; it stops because the upper bound is reached or because "separator then item" does
+    not match what follows, and then nothing of a dangling separator is consumed (the returned
+    lexer delivers exactly the tokens after the last item); nothing is sent to the sink *)
+Theorem C07_intersperse_is_greedy_peg_repetition :
+  forall m, 1 <= tabw m -> forall t, wf_text t ->
+  forall f lo hi a s lx ys c st v lxf stf,
+  in_core a = true -> in_core s = true -> gdepth a < f -> gdepth s < f -> Inv m t lx ys ->
+  run (S f) (GIntersperse lo hi a s) lx c st = (ROk v lxf, stf) ->
+  exists l ysf, v = VList l /\ lo <= length l /\ (forall h, hi = Some h -> length l <= h) /\ stf = st
+    /\ Inv m t lxf ysf /\ c_filter lxf = c_filter lx
+    /\ ((l = [] /\ lxf = lx /\ (hi = Some 0 \/ lo = 0 /\ peg a (kept (c_filter lx) ys) = Some PFail))
+        \/ (exists v1 more s1, l = v1 :: more /\ peg a (kept (c_filter lx) ys) = Some (POk v1 s1)
+              /\ piter a s s1 more (kept (c_filter lx) ysf)
+              /\ (ge_opt (length l) hi = true \/ peg (GRight s a) (kept (c_filter lx) ysf) = Some PFail))).
+Proof. exact intersperse_tokens. Qed.
+Print Assumptions C07_intersperse_is_greedy_peg_repetition.
 
 (** concrete: intersperse(one a, one c, 0, None) on "a c a c" takes two items and leaves the
     trailing separator unconsumed *)
